@@ -336,11 +336,24 @@ def proto():
     b = fn_body(gr, "socket_type_name_from_code")
     pairs = re.findall(r'V2_SOCKET_TYPE_([A-Z]+)\s*=>\s*"([A-Z]+)"', b)
     emit("socketTypeNameFromCode", "List (Nat × SockName)", "[" + ", ".join(f"({codes.get(c, 999)}, {sockname(a)})" for c, a in pairs) + "]")
-    b = fn_body(en, "validate_v2_compatibility")
-    pairs = re.findall(r'\(\s*"([A-Z]+)"\s*,\s*V2_SOCKET_TYPE_([A-Z]+)\s*\)', b)
-    if not pairs:
-        errors.append("validate_v2_compatibility table not found")
-    emit("v2Compat", "List (SockName × Nat)", "[" + ", ".join(f"({sockname(a)}, {codes.get(c, 999)})" for a, c in pairs) + "]")
+    # one shared name-based table (socket_types_compatible) or, in older sources, the v2-only code table
+    if re.search(r"\bfn\s+socket_types_compatible\b", strip_comments(src(en))):
+        b = fn_body(en, "socket_types_compatible")
+        pairs = re.findall(r'\(\s*"([A-Z]+)"\s*,\s*"([A-Z]+)"\s*\)', b)
+        if not pairs:
+            errors.append("socket_types_compatible table not found")
+        emit("typeCompat", "List (SockName × SockName)", "[" + ", ".join(f"({sockname(a)}, {sockname(c)})" for a, c in pairs) + "]")
+        bv2 = fn_body(en, "validate_v2_compatibility")
+        emit_nat("v2UsesSharedTable", 1 if "socket_types_compatible(own, peer_name)" in bv2 else 0)
+        if "socket_types_compatible(own, peer_name)" not in bv2:
+            errors.append("validate_v2_compatibility no longer uses socket_types_compatible")
+    else:
+        b = fn_body(en, "validate_v2_compatibility")
+        pairs = re.findall(r'\(\s*"([A-Z]+)"\s*,\s*V2_SOCKET_TYPE_([A-Z]+)\s*\)', b)
+        if not pairs:
+            errors.append("validate_v2_compatibility table not found")
+        emit("typeCompat", "List (SockName × SockName)", "[" + ", ".join(f"({sockname(a)}, {sockname(c)})" for a, c in pairs) + "]")
+        emit_nat("v2UsesSharedTable", 0)
     # inproc table
     ip = "core/src/transport/inproc/handshake.rs"
     b = fn_body(ip, "validate_socket_compatibility")
@@ -350,7 +363,8 @@ def proto():
     emit("inprocCompat", "List (SockName × SockName)", "[" + ", ".join(f"({sockname(a.upper())}, {sockname(c.upper())})" for a, c in pairs) + "]")
     # does the v3 READY path validate the peer's Socket-Type?
     b = fn_body(en, "process_ready")
-    emit_nat("v3ValidatesSocketType", 1 if re.search(r"validate_\w*compat", b) else 0)
+    emit_nat("v3ValidatesSocketType", 1 if re.search(
+        r"if\s+!socket_types_compatible\(self\.config\.socket_type_name\.as_str\(\),\s*peer_type\)", b) else 0)
     # mechanisms
     names = {}
     for rel, key in (("core/src/security/null.rs", "null"), ("core/src/security/plain.rs", "plain"),
